@@ -574,6 +574,13 @@ theorem step_cfg (s : State) (i : Nat) : (step s i).cfg = s.cfg := by
     simp only []
     cases t.pc <;> simp only [] <;> (repeat' split) <;> simp [setPc, setThread]
 
+theorem run_cfg (s : State) (sched : List Nat) : (run s sched).cfg = s.cfg := by
+  induction sched generalizing s with
+  | nil => rfl
+  | cons i r ih =>
+    show (run (step s i) r).cfg = s.cfg
+    rw [ih]; exact step_cfg s i
+
 theorem inv_init (cfg : Cfg) (ths : List Thread) (h : ∀ t ∈ ths, t.pc = .start) : Inv (init cfg ths) := by
   have hstart : ∀ (i : Nat) (t : Thread), ths[i]? = some t → t.pc = .start := fun i t hi =>
     h t (List.mem_of_getElem? hi)
